@@ -284,6 +284,34 @@ fn real_main() -> i32 {
                 verif::goml::CompileRes::Panic(p) => eprintln!("PANIC {}:{} {}\nsig {}", p.file, p.line, p.message, p.signature()),
             }
         }
+        "json-float-probe" => {
+            // debugging aid: how many f64 values change in a serde_json text round trip
+            let n: u64 = args.get(2).and_then(|s| s.parse().ok()).unwrap_or(1_000_000);
+            let mut x = 0x1234_5678_9abc_def0u64;
+            let mut bad = 0u64;
+            let mut first: Option<(f64, f64, String)> = None;
+            for _ in 0..n {
+                x = verif::util::mix(x, 0x9e37_79b9);
+                // decimal literals as a programmer writes them: d.ddd...
+                let digits = 1 + (x % 17) as usize;
+                let mut s = format!("{}.", (x >> 8) % 1000);
+                let mut y = x;
+                for _ in 0..digits {
+                    y = verif::util::mix(y, 7);
+                    s.push((b'0' + (y % 10) as u8) as char);
+                }
+                let v: f64 = s.parse().unwrap();
+                let t = serde_json::to_string(&v).unwrap();
+                let w: f64 = serde_json::from_str(&t).unwrap();
+                if w.to_bits() != v.to_bits() {
+                    bad += 1;
+                    if first.is_none() {
+                        first = Some((v, w, s.clone()));
+                    }
+                }
+            }
+            println!("{bad} of {n} values change; first: {:?}", first);
+        }
         _ => usage(),
     }
     0
